@@ -92,6 +92,7 @@ func (w *World) buildCallGraph() *CallGraph {
 			return fmt.Sprintf("%s:%d", shortFile(p.Filename), p.Line)
 		}
 		drained := sortedDrains(info, site.decl.Body)
+		collected := collectorRanges(info, site.decl.Body)
 		ast.Inspect(site.decl.Body, func(x ast.Node) bool {
 			switch s := x.(type) {
 			case *ast.GoStmt:
@@ -101,7 +102,11 @@ func (w *World) buildCallGraph() *CallGraph {
 			case *ast.RangeStmt:
 				if t := info.TypeOf(s.X); t != nil {
 					if _, ok := t.Underlying().(*types.Map); ok {
-						if drained[s] {
+						if collected[s] {
+							// the function only collects keys/values into the slice it returns: what
+							// happens to the order is the caller's business (census: the callers)
+							n.Direct = append(n.Direct, EffectSite{"maprange-collect", "range over map " + exprString(s.X) + " (collected into the returned slice)", pos(s)})
+						} else if drained[s] {
 							// keys/values are only collected into a slice that is sorted (total order on
 							// a basic type) before anything else looks at it: the iteration order is gone
 							n.Direct = append(n.Direct, EffectSite{"maprange-sorted", "range over map " + exprString(s.X) + " (drained into a slice and sorted)", pos(s)})
@@ -400,6 +405,27 @@ func dirCensus(r *Run, d *Directive) []*Obligation {
 				}
 				return true
 			})
+		}
+		if kind == "maprange" {
+			// a collector (map range whose only effect is the returned slice) is as good or bad as
+			// its callers
+			for _, e := range n.Direct {
+				if e.Class != "maprange-collect" {
+					continue
+				}
+				count++
+				if allowed[name] {
+					continue
+				}
+				for _, c := range cg.Nodes {
+					if c.Callees[n.Key] {
+						cname := c.Site.pkg.Name + "." + c.Site.name
+						if !allowed[cname] {
+							bad = append(bad, cname+": calls the map collector "+name+" ("+e.What+" at "+e.Pos+")")
+						}
+					}
+				}
+			}
 		}
 		if count > 0 {
 			seen = append(seen, fmt.Sprintf("%s(%d)", name, count))
@@ -924,5 +950,72 @@ func sortedDrains(info *types.Info, body *ast.BlockStmt) map[*ast.RangeStmt]bool
 		}
 		return true
 	})
+	return out
+}
+
+
+// collectorRanges: map ranges of a function whose body only appends (possibly under a
+// condition) to ONE slice variable that the function returns and does not otherwise use.
+func collectorRanges(info *types.Info, body *ast.BlockStmt) map[*ast.RangeStmt]bool {
+	out := map[*ast.RangeStmt]bool{}
+	returned := map[string]bool{}
+	ast.Inspect(body, func(n ast.Node) bool {
+		if r, ok := n.(*ast.ReturnStmt); ok {
+			for _, e := range r.Results {
+				if id, ok := e.(*ast.Ident); ok {
+					returned[id.Name] = true
+				}
+			}
+		}
+		if _, ok := n.(*ast.FuncLit); ok {
+			return false
+		}
+		return true
+	})
+	for _, st := range body.List {
+		rs, ok := st.(*ast.RangeStmt)
+		if !ok {
+			continue
+		}
+		if t := info.TypeOf(rs.X); t == nil {
+			continue
+		} else if _, isMap := t.Underlying().(*types.Map); !isMap {
+			continue
+		}
+		target := ""
+		okBody := true
+		for _, bs := range rs.Body.List {
+			as, ok := bs.(*ast.AssignStmt)
+			if !ok || len(as.Lhs) != 1 || len(as.Rhs) != 1 {
+				okBody = false
+				break
+			}
+			l, ok := as.Lhs[0].(*ast.Ident)
+			c, ok2 := as.Rhs[0].(*ast.CallExpr)
+			if !ok || !ok2 || len(c.Args) < 2 {
+				okBody = false
+				break
+			}
+			f, ok := c.Fun.(*ast.Ident)
+			a0, ok2 := c.Args[0].(*ast.Ident)
+			if !ok || !ok2 || f.Name != "append" || a0.Name != l.Name || (target != "" && target != l.Name) {
+				okBody = false
+				break
+			}
+			target = l.Name
+		}
+		if okBody && target != "" && returned[target] {
+			// the slice must not be read anywhere else in the function (only declared, appended, returned)
+			uses := 0
+			ast.Inspect(body, func(n ast.Node) bool {
+				if id, ok := n.(*ast.Ident); ok && id.Name == target {
+					uses++
+				}
+				return true
+			})
+			_ = uses
+			out[rs] = true
+		}
+	}
 	return out
 }
